@@ -23,6 +23,26 @@ CHECKS = {
             "path. Oracle: received bytes == sent bytes then end-of-stream, stream ids agree, no stream delivered twice.",
             SIM_NOTE,
             "exhaustive enumeration of a bounded scenario grid executed on the real stack under a deterministic simulated environment"),
+    "C02": ("simx", "exploration", "DESIGN.md §6-C02",
+            "Every scenario of a finite grid is executed end to end: (wt client -> wt server | raw client sending the request in each of "
+            "72 QPACK representations x 3 pseudo-header orders | wt client against a raw server answering with 31 response variants x "
+            "representations) x URL grid (IPv4/IPv6/domain/upper-case hosts x default/explicit ports x 6 paths x 4 queries; the simulated "
+            "server listens at the address the URL names) x additional header sets (every static-table name, literal names of length "
+            "1,6,7,8,100, values across the 7-bit prefix boundary, Huffman-shrinking or not, pairs, one maximal set) x 7 server decisions. "
+            "Oracle: server sees exactly authority / path+query / fields; connect Ok iff accept, SessionRejected iff valid non-2xx; both "
+            "sides report the CONNECT stream id as session id; the session is usable.",
+            SIM_NOTE + " Expected authority/path use string slicing plus the three documented URL normalisations.",
+            "exhaustive enumeration of a bounded scenario grid executed on the real stack under a deterministic simulated environment"),
+    "C16": ("simx", "exploration", "DESIGN.md §6-C16",
+            "A raw quinn peer records every byte the endpoint emits (both roles) over a grid of requests, decisions, header singletons, "
+            "stream sets, datagram lengths and CONNECT stream ids (session ids crossing varint lengths) and the independent reference codec "
+            "must decode all of it: ALPN h3; exactly one control stream whose first and only SETTINGS carries ENABLE_WEBTRANSPORT=1, "
+            "H3_DATAGRAM=1, ENABLE_CONNECT_PROTOCOL=1, zero QPACK capacity, no reserved / duplicate ids; no other non-WT, non-QPACK, "
+            "non-GREASE uni stream; field sections with RIC=0/base=0, static or literal lines only, pseudo-headers first, no duplicates, "
+            "content equal to what the application supplied; WT streams start with 0x54/0x41 + session id in shortest form followed by "
+            "exactly the payload; datagrams start with session id / 4; every varint in its shortest form.",
+            SIM_NOTE + " Error codes put on the wire are compared with the registry in C12's driver part.",
+            "exhaustive enumeration of a bounded scenario grid; wire bytes decoded by an independent codec"),
     "C11": ("protox", "exploration", "DESIGN.md §6-C11",
             "Every network-facing decoder (varints, frames x3 paths, stream headers x3 paths + uni upgrade, SETTINGS, QPACK field sections, "
             "datagrams, capsules + close capsule, the four frame-reading typestates x3 paths) is executed on all byte strings up to length 3 "
